@@ -20,7 +20,7 @@ if ! git apply "$P" 2>/dev/null; then
 fi
 rc=9
 if [ $ok = 1 ]; then
-  cd /verif && VERIF_REPO="$T" VERIF_EVIDENCE_SUFFIX="${MUT_SCRATCH:+.mut}" timeout 3000 ./vcheck run "$ID" --tier "$TIER" 2>&1 | grep -v "^  label" | tail -${LINES_OUT:-6}
+  cd /verif && VERIF_ONLY="${ONLY:-}" VERIF_REPO="$T" VERIF_EVIDENCE_SUFFIX="${MUT_SCRATCH:+.mut}" timeout 3000 ./vcheck run "$ID" --tier "$TIER" 2>&1 | grep -v "^  label" | tail -${LINES_OUT:-6}
   rc=${PIPESTATUS[0]}
 fi
 if [ "${MUT_SCRATCH:-0}" = "1" ]; then
